@@ -102,7 +102,12 @@ class Report:
         paths = []
         if seen:
             os.makedirs(rdir, exist_ok=True)
+        MAXFILES = 40       # a badly broken tree yields hundreds of signatures: keep the first 40 as files
         for i, (key, wits) in enumerate(sorted(seen.items())):
+            if i >= MAXFILES:
+                print("VIOLATION property=%s replay=%s (and %d more distinct signatures, not written out)"
+                      % (self.prop, paths[-1], len(seen) - MAXFILES))
+                break
             path = os.path.join(rdir, "%s-%s-seed%d-%d.json" % (self.prop, self.tier, self.seed, i))
             with open(path, "w") as fh:
                 json.dump({"property": self.prop, "tier": self.tier, "seed": self.seed,
